@@ -167,9 +167,9 @@ func c02Cat(parts ...[]byte) []byte {
 	return out
 }
 
-// c02ColdIdx: this script is also run against itself from the package's
-// initial state (Huffman decoding tree not built), in the thorough tier.
-const c02ColdIdx = 0
+// c02ColdIdx: the pairs of these scripts are also explored from the
+// package's initial state (Huffman decoding tree not built, pool empty).
+var c02ColdIdx = []int{0, 3}
 
 type c02Script struct {
 	kind, name string
@@ -309,7 +309,7 @@ func c02Warm() {
 func TestVerif_C02_globals(t *testing.T) {
 	vx.Run(t, "C02", func(c *vx.Ctx) {
 		bounds := vx.Pick(c, []int{1}, []int{1, 2})
-		c.Rule("concurrent part: for every unordered pair of decoding scripts from a small alphabet (each script makes its own Decoder(s) and decodes 1-3 header blocks with DecodeFull or Write…Close: valid RFC 7541 C.3/C.4/C.6 blocks raw and Huffman-coded, a block split inside a string, strings above SetMaxStringLength on the wire and after Huffman decoding, an EOS inside a Huffman string, invalid indexes, an overflowing integer, table size updates above / at / below SetAllowedMaxDynamicTableSize, eviction, SetMaxDynamicTableSize between blocks, a block truncated at Close followed by a further block; thorough adds bytewise Writes and more update shapes) two threads run one script each (thorough: twice each) on the instrumented http2/hpack source, starting (programs warm/pair/…, all pairs) from the state after one Huffman decode (decoding tree built, one buffer in the pool) and (thorough only: program pair/…, one script against itself, one call per thread) from the package's initial state; every schedule with at most B preemptions (quick B=1; thorough B=1 for every program, then B=2 as far as the budget reaches — the bound completed per program is recorded) at the scheduling points — before each statement mentioning a written package-level variable " + fmt.Sprint(zzWrittenGlobals) + ", sync.Once, sync.Pool Get/Put, and between any two Decoder calls of a script — is executed and each script must produce its sequential transcript: emitted fields (name, value, Sensitive), byte counts, error types and texts, the fields dynamic indexes 62-64 resolve to afterwards, and (white-box) table size = sum of entry sizes <= current maximum")
+		c.Rule("concurrent part: for every unordered pair of decoding scripts from a small alphabet (each script makes its own Decoder(s) and decodes 1-3 header blocks with DecodeFull or Write…Close: valid RFC 7541 C.3/C.4/C.6 blocks raw and Huffman-coded, a block split inside a string, strings above SetMaxStringLength on the wire and after Huffman decoding, an EOS inside a Huffman string, invalid indexes, an overflowing integer, table size updates above / at / below SetAllowedMaxDynamicTableSize, eviction, SetMaxDynamicTableSize between blocks, a block truncated at Close followed by a further block; thorough adds bytewise Writes and more update shapes) two threads run one script each (thorough: twice each) on the instrumented http2/hpack source, starting (programs warm/pair/…, all pairs) from the state after one Huffman decode (decoding tree built, one buffer in the pool) and (programs pair/…, the three pairs of two of the scripts) from the package's initial state (decoding tree not built, pool empty); every schedule with at most B preemptions (quick B=1; thorough B=1 for every program, then B=2 as far as the budget reaches — the bound completed per program is recorded) at the scheduling points — before each statement mentioning a written package-level variable " + fmt.Sprint(zzWrittenGlobals) + ", sync.Once, sync.Pool Get/Put, and between any two Decoder calls of a script — is executed and each script must produce its sequential transcript: emitted fields (name, value, Sensitive), byte counts, error types and texts, the fields dynamic indexes 62-64 resolve to afterwards, and (white-box) table size = sum of entry sizes <= current maximum")
 		c.Assume("concurrent part: statement granularity at mentions of written package-level variables; accesses to heap objects only reachable from them (Huffman tree nodes, pooled buffers) and mutation through method calls are not scheduling points; sync.Pool is one shared LIFO free list; the expected transcript is the uninstrumented package's own sequential behaviour (the sequential parts judge that against RFC 7541); the first-use race of the Huffman tree is explored from the initial state for a subset of the pairs only (it is C04's subject)")
 		seq := 0
 		if !c.Quick() {
@@ -322,10 +322,12 @@ func TestVerif_C02_globals(t *testing.T) {
 			p.Name = "warm/" + p.Name
 			progs = append(progs, p)
 		}
-		if !c.Quick() {
-			// first use (decoding tree not built yet): one program pair, last, one call per thread
-			progs = append(progs, vsched.PairPrograms("C02", zzResetGlobals, []vsched.Op{ops[c02ColdIdx]}, 0)...)
+		// first use (decoding tree not built yet, pool empty): the pairs of two scripts, last
+		var cold []vsched.Op
+		for _, i := range c02ColdIdx {
+			cold = append(cold, ops[i])
 		}
+		progs = append(progs, vsched.PairPrograms("C02", zzResetGlobals, cold, seq)...)
 		c.Note("globals_programs", len(progs))
 		c.Note("written_package_level_variables", zzWrittenGlobals)
 		vsched.RunBounds(c, "globals", progs, bounds)
